@@ -611,6 +611,24 @@ class Fn(object):
                     return True
         return False
 
+    def loops_of(self, bid):
+        """headers of the natural loops that contain block bid"""
+        if "_loops" not in self.__dict__:
+            self._loops = {}
+            for b in self.blocks.values():
+                if any(self.dominates(b.id, p) for p, _ in b.preds):
+                    self._loops[b.id] = self.natural_loop(b.id)
+        return frozenset(h for h, body in self._loops.items() if bid in body)
+
+    def tied(self, a, b):
+        """elements a and b execute together: same loop nest, and one dominates while the other post-dominates it"""
+        if self.loops_of(a.bid) != self.loops_of(b.bid):
+            return False
+        if a.bid == b.bid:
+            return True
+        return (self.dominates(a.bid, b.bid) and self.postdominates(b.bid, a.bid)) or \
+               (self.dominates(b.bid, a.bid) and self.postdominates(a.bid, b.bid))
+
     def natural_loop(self, hdr):
         """blocks of the natural loop(s) with header block `hdr` (back edges t->hdr with hdr dominating t)."""
         body = set([hdr])
